@@ -3,6 +3,8 @@ project the real objects back to the abstract state of NetBuild.tla.
 The projection reads only public API (net.graph, the lookup properties, is_valid)."""
 from __future__ import annotations
 
+import zlib
+
 import os
 import sys
 
@@ -72,12 +74,25 @@ class Universe:
         if op not in self.OPS:
             raise ValueError(f"unknown abstract call {op}")
         args = None
+        # bulk arguments in the spellings a caller may use for "an iterable": list, tuple, one-shot generator, zip
+        self.ncalls = getattr(self, "ncalls", 0) + 1
+        spell = zlib.crc32(f"{c}|{self.ncalls}".encode()) % 4
+
+        def iterable(items):
+            items = list(items)
+            if spell == 1:
+                return tuple(items)
+            if spell == 2:
+                return (z for z in items)
+            if spell == 3 and items and isinstance(items[0], tuple):
+                return zip(*[list(col) for col in zip(*items)])
+            return items
         if op == "add_nodes":
-            args = [g(i) for i in c[1]]
+            args = iterable(g(i) for i in c[1])
         elif op == "add_links":
-            args = [(g(a), g(b), g(d)) for a, b, d in c[1]]
+            args = iterable((g(a), g(b), g(d)) for a, b, d in c[1])
         elif op == "add_path":
-            args = ([g(i) for i in c[1]], g(c[2]) if c[2] else None, g(c[3]) if c[3] else None)
+            args = (iterable(g(i) for i in c[1]), g(c[2]) if c[2] else None, g(c[3]) if c[3] else None)
         elif op in ("add_node", "out_links", "in_links"):
             args = g(c[1])
         elif op in ("add_link",):
@@ -106,8 +121,7 @@ class Universe:
             elif op == "in_links":
                 return ("value", [[self.idof(u), self.idof(v), self.idof(l)] for u, v, l in net.in_links(args)])
             elif op == "is_valid":
-                ok, msgs = net.is_valid(raises=False)
-                return ("valid", [bool(ok), len(msgs)])
+                return ("valid", self.ask_valid())
             return ("ok", None)
         except BaseException as e:  # noqa: BLE001
             return ("error", type(e).__name__)
@@ -180,12 +194,27 @@ class Universe:
     def cached(self):
         return sorted(k for k in LOOKUPS if k in self.net.__dict__)
 
+    def ask_valid(self):
+        """is_valid(raises=False) asked the way a caller does who consumes the messages: the returned list is the
+        caller's (it is emptied, a note is appended); asked again, the verdict and the messages must be the same"""
+        ok, msgs = self.net.is_valid(raises=False)
+        first = (bool(ok), list(msgs))
+        try:
+            msgs.clear()
+            msgs.append("(consumed by the caller)")
+        except AttributeError:
+            pass    # an immutable sequence
+        ok2, msgs2 = self.net.is_valid(raises=False)
+        if (bool(ok2), list(msgs2)) != first:
+            # the second answer is the one reported: the comparison with the specification then decides
+            return [bool(ok2), len(msgs2)]
+        return [first[0], len(first[1])]
+
     def validity(self):
         from sym_metanet.errors import InvalidNetworkError
         r = {"ok": None, "nmsgs": None, "raised": None, "err": ""}
         try:
-            ok, msgs = self.net.is_valid(raises=False)
-            r["ok"], r["nmsgs"] = bool(ok), len(msgs)
+            r["ok"], r["nmsgs"] = self.ask_valid()
         except BaseException as e:  # noqa: BLE001
             r["err"] = "is_valid(False): " + type(e).__name__
         try:
